@@ -55,3 +55,11 @@ _m("C07", "each case is one real solve()/restart() call (all 15 integrator class
           "(forward side step <= CFL step from the current trajectory state, re-executed on a fresh integrator), finiteness, "
           "nit/totnit, first-stop, iteration tags and that the caller's field is bit-identical.  non-trivial: every logged solve "
           "with >= 1 main step or >= 1 request; distinct = hash(config, tsave, stop).")
+
+_m("C08", "call histories on one solver object and on fresh objects, all 15 integrator classes x {convection (cached-Jacobian "
+          "path), burgers, euler1d, shallowwater} x periodic/wall/open: solve twice; solve after an unrelated solve with saves and "
+          "monitors; fresh object; with/without extra in-range save times; with/without residual/data_average monitors of random "
+          "frequency; solve(N)+restart(M) vs solve(N+M) on the same and on a fresh object.  States are compared bitwise "
+          "(np.array_equal on every trajectory state captured at the _parse_monitors call sites), monitor records against values "
+          "recomputed from the captured state with a fresh discretisation.  non-trivial: trajectories with finite, changing data; "
+          "distinct = hash(config, N, M, tsave, monitors).")
